@@ -42,6 +42,8 @@ mod boxcar;
 mod par_sort;
 pub mod pattern;
 mod worker;
+#[cfg(nucleo_verif)]
+pub mod verif;
 
 #[cfg(test)]
 mod tests;
@@ -363,6 +365,8 @@ impl<T: Sync + Send + 'static> Nucleo<T> {
     /// instance anymore. The old items will only be dropped when all injectors
     /// were dropped.
     pub fn restart(&mut self, clear_snapshot: bool) {
+        #[cfg(nucleo_verif)]
+        verif::point("restart:enter", clear_snapshot as u64);
         self.canceled.store(true, Ordering::Relaxed);
         self.items = Arc::new(boxcar::Vec::with_capacity(1024, self.items.columns()));
         self.state = State::Cleared;
@@ -381,7 +385,11 @@ impl<T: Sync + Send + 'static> Nucleo<T> {
     /// excessive redraws this method will wait `timeout` milliseconds for the
     /// worker therad to finish. It is recommend to set the timeout to 10ms.
     pub fn tick(&mut self, timeout: u64) -> Status {
+        #[cfg(nucleo_verif)]
+        verif::point("tick:enter", timeout);
         self.should_notify.store(false, atomic::Ordering::Relaxed);
+        #[cfg(nucleo_verif)]
+        verif::point("tick:flag_cleared", 0);
         let status = self.pattern.status();
         let canceled = status != pattern::Status::Unchanged || self.state.canceled();
         let mut res = self.tick_inner(timeout, canceled, status);
@@ -399,10 +407,18 @@ impl<T: Sync + Send + 'static> Nucleo<T> {
         let mut inner = if canceled {
             self.pattern.reset_status();
             self.canceled.store(true, atomic::Ordering::Relaxed);
+            #[cfg(nucleo_verif)]
+            verif::point("tick:lock", 0);
             self.worker.lock_arc()
         } else {
+            #[cfg(nucleo_verif)]
+            verif::point("tick:try_lock", timeout);
             let Some(worker) = self.worker.try_lock_arc_for(Duration::from_millis(timeout)) else {
+                #[cfg(nucleo_verif)]
+                verif::point("tick:try_lock_failed", 0);
                 self.should_notify.store(true, Ordering::Release);
+                #[cfg(nucleo_verif)]
+                verif::point("tick:rearmed", 0);
                 return Status {
                     changed: false,
                     running: true,
@@ -430,6 +446,8 @@ impl<T: Sync + Send + 'static> Nucleo<T> {
             if cleared {
                 inner.items = self.items.clone();
             }
+            #[cfg(nucleo_verif)]
+            verif::point("tick:before_spawn", cleared as u64);
             self.pool
                 .spawn(move || unsafe { inner.run(status, cleared) })
         }
@@ -442,6 +460,8 @@ impl<T: Sync + Send> Drop for Nucleo<T> {
         // we ensure the worker quits before dropping items to ensure that
         // the worker can always assume the items outlive it
         self.canceled.store(true, atomic::Ordering::Relaxed);
+        #[cfg(nucleo_verif)]
+        verif::point("drop:lock", 0);
         let lock = self.worker.try_lock_for(Duration::from_secs(1));
         if lock.is_none() {
             unreachable!("thread pool failed to shutdown properly")
